@@ -182,9 +182,9 @@ def enum_sessions(kind):
                 yield [g] + ([up] if up else []) + [r, b"\xAA\xBB"]
 
 
-def trunc_points(parts):
+def trunc_points(parts, full=False):
     total = sum(len(p) for p in parts)
-    if total <= 48:
+    if total <= 48 or full:
         return list(range(total + 1))
     pts, acc = {0, total}, 0
     for p in parts:
@@ -197,7 +197,7 @@ def trunc_points(parts):
     return sorted(x for x in pts if 0 <= x <= total)
 
 
-def enum_cases(kind):
+def enum_cases(kind, full=False):
     out = []
     for parts in enum_sessions(kind):
         full = b"".join(parts)
@@ -205,7 +205,7 @@ def enum_cases(kind):
         for p in parts[:-1]:
             acc += len(p)
             bounds.append(acc)
-        for t in trunc_points(parts):
+        for t in trunc_points(parts, full):
             s = full[:t]
             chunkings = [[], [1] * max(len(s), 1)]
             b0 = bounds[0]
@@ -376,7 +376,7 @@ def run(ctx, only_cases=None):
         cases += malformed_sessions(rng, rnd[:: (4 if thorough else 8)], 3)
         enum = []
         for k in kinds:
-            enum += enum_cases(k)
+            enum += enum_cases(k, full=thorough)
         n_enum_total = len(enum)
         if thorough:
             exhaustive = True
